@@ -504,11 +504,12 @@ def _run_lemma_path(case, res, interp, ctx, cp, tag):
     hints = []
     try:
         for item in case.lemma(cp):
-            nm, g = item
+            nm, g = item[0], item[1]
             kind = 'hint' if nm.startswith('hint:') else 'lemma'
             o = ctx.oblige('%s.%s' % (case.case, nm), g, kind=kind)
             o.hints = list(hints)
             if kind == 'hint':
+                o.conclusion = item[2] if len(item) > 2 else None
                 hints.append(o)
         res.returns += 1
         res.covers.append((tag, 'return', list(ctx.pc)))
